@@ -11,6 +11,7 @@ Section SkelInd.
   Hypothesis Hprobe : P KProbe.
   Hypothesis Hseq : forall l, Forall P l -> P (KSeq l).
   Hypothesis Hloop : forall a b l, Forall P l -> P (KLoop a b l).
+  Hypothesis Hcatch : forall b, P b -> P (KCatch b).
   Hypothesis Hcall : forall n b, P b -> P (KCall n b).
 
   Fixpoint skel_ind' (s : skel) : P s :=
@@ -29,6 +30,7 @@ Section SkelInd.
                         | [] => Forall_nil P
                         | x :: tl => Forall_cons x (skel_ind' x) (go tl)
                         end) l)
+    | KCatch b => Hcatch b (skel_ind' b)
     | KCall n b => Hcall n b (skel_ind' b)
     end.
 End SkelInd.
@@ -104,6 +106,7 @@ Proof.
   - reflexivity.
   - apply seq_signal_ok; auto.
   - apply iters_signal_ok; auto.
+  - destruct (pure_signal s) as [| | | | |k|] eqn:E; simpl; auto.
   - destruct (pure_signal s) as [| | | | |k|] eqn:E; simpl; auto.
 Qed.
 
@@ -211,6 +214,12 @@ Proof.
     + exists extra. unfold set_env; simpl. rewrite Hex.
       rewrite set_nth_app by lia. f_equal.
       unfold m1; simpl. rewrite set_nth_set_nth. apply set_nth_same; exact En.
+  - (* catch *)
+    simpl in E.
+    destruct (eval (repaired r) s m) as [[g1 m1] t1] eqn:E1.
+    destruct (IHs m g1 m1 t1 Hne E1) as (Hg & Hsame & extra & Hex).
+    simpl pure_signal. rewrite <- Hg.
+    destruct g1; inversion E; subst; (split; [reflexivity|]); (split; [auto|]); exists extra; auto.
   - (* call *)
     simpl in E.
     replace (r && false && (num_registers <? n)) with false in E
